@@ -342,6 +342,29 @@ def check_driver(ctx, top):
     txt = [ast.unparse(s) for s in loop.body]
     okd = any(t.startswith("yankable = find_snake(diagram)") for t in txt) and any("if yankable is None" in t and "break" in t for t in txt) and \
         any("unsnake(diagram, *yankable)" in t and "diagram = _diagram" in t for t in txt)
+    if not okd and ast.unparse(loop.test) == "yankable is not None":
+        # the same loop rotated: search once before the loop and again at the end of every pass; the tuple may be unpacked into the call
+        before = [ast.unparse(s) for s in top.body if s.lineno < loop.lineno]
+        unpack = next((s for s in loop.body if isinstance(s, ast.Assign) and ast.unparse(s.value) == "yankable" and isinstance(s.targets[0], ast.Tuple)), None)
+        names_ = [ast.unparse(x) for x in unpack.targets[0].elts] if unpack is not None else None
+        fr = next((s for s in loop.body if isinstance(s, ast.For) and isinstance(s.iter, ast.Call) and ast.unparse(s.iter.func) == "unsnake"), None)
+        if fr is not None and isinstance(fr.target, ast.Name):
+            c = fr.iter
+            pos = [ast.unparse(a) for a in c.args]
+            kw = {k.arg: ast.unparse(k.value) for k in c.keywords}
+            params = [a.arg for a in m.func(Q + ".unsnake").args.args] if False else None
+            us_fn = next((n for n in ast.walk(top) if isinstance(n, ast.FunctionDef) and n.name == "unsnake"), None)
+            us_params = [a.arg for a in us_fn.args.args] if us_fn is not None else []
+            if pos == ["diagram", "*yankable"]:
+                args_ok = True
+            elif names_ is not None and len(us_params) == 1 + len(names_):
+                bound = dict(zip(us_params, pos))
+                bound.update(kw)
+                args_ok = [bound.get(p_) for p_ in us_params] == ["diagram"] + names_
+            else:
+                args_ok = False
+            okd = "yankable = find_snake(diagram)" in before and txt[-1] == "yankable = find_snake(diagram)" and args_ok and \
+                any(ast.unparse(s) == "diagram = %s" % fr.target.id for s in fr.body) and not any(isinstance(x, (ast.Break, ast.Continue)) for x in ast.walk(loop))
     ctx.ob("R07.4", Q + ":driver", okd, found=txt, required="repeat: find a snake in the current diagram, remove it, continue from the result", mod=RW,
            node=loop, sig="driver")
     tail = top.body[-1]
